@@ -162,7 +162,7 @@ package onnx
 //@ spec typed_field_populated(tp *TensorProto) bool = len(tp.FloatData) > 0 || len(tp.Int32Data) > 0 || len(tp.Int64Data) > 0 || len(tp.DoubleData) > 0 || len(tp.Uint64Data) > 0
 
 //@ func TensorFromProto
-//@   tags C12,C18
+//@   tags C12,C18,C11
 //@   requires tp != nil
 //@   loop 1 invariant nElements == prod(arr(dims), off(dims), $i) && (forall k :: 0 <= k && k < $i ==> dims[k] >= 1)
 //@   ensures [C12] unsupported_type_refused: !supported_dt(tp.DataType) && !typed_field_populated(tp) ==> err != nil
